@@ -106,6 +106,49 @@ def worker_stream_reqs(prob, mode, info):
     return out
 
 
+REUSE = r'''
+import os, sys, threading, time
+sys.path.insert(0, %(repo)r)
+import logging; logging.disable(logging.CRITICAL)
+from nucs.problems.problem import Problem
+from nucs.propagators.propagators import ALG_ALLDIFFERENT
+from nucs.solvers.backtrack_solver import BacktrackSolver
+from nucs.solvers.multiprocessing_solver import MultiprocessingSolver
+def watchdog():
+    print("hang"); sys.stdout.flush(); os._exit(0)
+t = threading.Timer(%(deadline)d, watchdog); t.daemon = True; t.start()
+p = Problem([(0, 3)] * 3)
+p.add_propagator(([0, 1, 2], ALG_ALLDIFFERENT, []))
+ref = sorted(tuple(int(x) for x in s) for s in BacktrackSolver(p, log_level="ERROR").solve())
+ms = MultiprocessingSolver([BacktrackSolver(q, log_level="ERROR") for q in p.split(%(k)d, 0)], log_level="ERROR")
+it = ms.solve()
+first = [next(it) for _ in range(%(take)d)]
+it.close()
+time.sleep(1.5)          # the abandoned workers finish and post what they had left
+got = sorted(tuple(int(x) for x in s) for s in ms.solve())
+n = ms.get_statistics()["SOLVER_SOLUTION_NB"]
+print("ok" if got == ref and n == len(ref) else f"bad {len(got)} of {len(ref)} solutions, SOLUTION_NB {n}")
+sys.stdout.flush(); os._exit(0)
+'''
+
+
+def reuse_after_abandon(k, take, deadline=40):
+    """REAL processes: an enumeration on a MultiprocessingSolver is abandoned after `take` solutions, then the same object
+    enumerates again; the second enumeration must be the sequential solver's multiset"""
+    import os
+    import subprocess
+    import sys
+
+    env = dict(os.environ)
+    env["NUMBA_DISABLE_JIT"] = "1"
+    try:
+        r = subprocess.run([sys.executable, "-c", REUSE % {"repo": nv.REPO, "k": k, "take": take, "deadline": deadline}],
+                           capture_output=True, text=True, timeout=deadline + 30, env=env)
+        return (r.stdout.strip().splitlines() or ["no-output: " + r.stderr[-200:]])[-1]
+    except subprocess.TimeoutExpired:
+        return "hang"
+
+
 def compare(impl, ans):
     """the first field (running set) is internal to the model; after a raise the aggregated statistics are not
     observable (the call ended with an exception): compare the observable rest"""
@@ -214,6 +257,14 @@ def run(ctx):
         if not compare(impl, ans):
             corr.append(dict(case, implementation=impl, model=ans))
         report.sample({"request": q[:300], "implementation": impl[:200], "model": ans[:200]}, cap=3)
+    # reuse of one MultiprocessingSolver object after an abandoned enumeration (real worker processes)
+    for k_, take in (((2, 1),) if ctx["tier"] == "quick" else ((1, 1), (2, 1), (4, 2))):
+        out = reuse_after_abandon(k_, take)
+        report.cov["evaluations"] += 1
+        report.count("reuse_after_abandoned_enumeration", out.split(" ")[0])
+        if out != "ok":
+            viol.append({"kind": "mp-history", "workers": k_, "taken_before_abandoning": take,
+                         "detail": "a second enumeration on a MultiprocessingSolver whose first enumeration was abandoned: " + out})
     # the workers' streams against the model's search on the parts (hypothesis hW of the end-to-end theorems)
     sub_answers = nv.Model().ask([q for q, _, _ in sub_reqs])
     for (q, impl, case), ans in zip(sub_reqs, sub_answers):
